@@ -91,14 +91,33 @@ fn vx_bounded_naming_bookkeeping() {
             for j in 0..len { idx[j] = c % n; c /= n; }
             let mut naming = NamingActor::new();
             let mut trace = vec![];
+            let mut closed = [false; 3];
             for j in 0..len {
                 let op = ops[idx[j]];
+                // a connection id is never used again once the connection has ended
+                match op {
+                    Op::Reg(_, _, cl, _) | Op::RegT(_, _, cl, _, _) | Op::Disc(cl) if cl > 0 && closed[cl] => continue,
+                    Op::Del(_, _, who) if who > 0 && who < 3 && closed[who] => continue,
+                    Op::Disc(cl) => closed[cl] = true,
+                    _ => {}
+                }
                 trace.push(op);
                 match op {
                     Op::Reg(s, a, cl, eph) => { naming.update_instance(&skey(s), inst(s, a, cl, eph), Some(InstanceUpdateTag::default()), false, None); }
                     Op::RegT(s, a, cl, eph, kind) => { let (tag, from_sync) = tag_of(kind); let mut i = inst(s, a, cl, eph); if kind == 4 { let mut md = HashMap::new(); md.insert("k".to_string(), "v".to_string()); i.metadata = Arc::new(md); } naming.update_instance(&skey(s), i, tag, from_sync, None); }
                     Op::Del(s, a, who) => { let i = inst(s, a, 0, true); let cid = client(who); naming.remove_instance(&skey(s), &i.get_short_key(), if who == 3 { None } else { Some(&cid) }); }
-                    Op::Disc(cl) => naming.remove_client_instance(&client(cl)),
+                    Op::Disc(cl) => {
+                        // C12: the end of a connection removes every ephemeral instance it owns and nothing else
+                        let cid = client(cl);
+                        let before: Vec<(ServiceKey, InstanceShortKey, bool)> = naming.service_map.iter().flat_map(|(k, svc)| svc.instances.iter()
+                            .map(|(ik, i)| (k.clone(), ik.clone(), i.ephemeral && i.client_id.as_str() == cid.as_str())).collect::<Vec<_>>()).collect();
+                        naming.remove_client_instance(&cid);
+                        for (k, ik, own) in before.iter() {
+                            let still = naming.get_instance(k, ik).is_some();
+                            if *own && still { failures.push(format!("VX-BOUNDED-FAIL DISCONNECT an ephemeral instance {:?} of the closed connection {} is still registered after {:?}", ik, cid, trace)); }
+                            if !*own && !still { failures.push(format!("VX-BOUNDED-FAIL DISCONNECT the end of connection {} removed {:?}, which is not an ephemeral instance of that connection, after {:?}", cid, ik, trace)); }
+                        }
+                    }
                     Op::Clean(s) => {
                         let had = naming.service_map.get(&skey(s)).map(|x| x.instances.len()).unwrap_or(0);
                         let r = naming.remove_empty_service(skey(s));
